@@ -56,7 +56,9 @@ fn main() {
             truth::passes::const_simplify::run(&mut block, ctx)?;
             // what is left of the source after constant folding (dead ternary branches are gone)
             let simplified = Exporter::new(Some(truth.ctx())).block(&block);
-            let instrs = lower_block(truth, block, &hooks, truth::LanguageKey::Anm)?;
+            // (a failure of the lowering itself -- "too complex", scratch forbidden -- is kept as a value: the
+            //  allocation events up to it are still judged, and they need the dead-mention record below)
+            let instrs = lower_block(truth, block, &hooks, truth::LanguageKey::Anm).map_err(|e| e.ignore());
             Ok((src, simplified, instrs))
         });
         let events = truth::verif_hooks::trace::take();
@@ -66,7 +68,20 @@ fn main() {
             "scratch_int": cfg["scratch_int"], "scratch_float": cfg["scratch_float"]});
         let mut row = base;
         match r {
-            Out::Ok((Ok(src), simplified, instrs), diag) => {
+            Out::Ok((Ok(src), simplified, Err(())), diag) => {
+                let mut ment_src = std::collections::BTreeSet::new();
+                mentioned(&src, &json!({}), &mut ment_src);
+                let mut ment_after = std::collections::BTreeSet::new();
+                if let Ok(simp) = &simplified { mentioned(simp, &json!({}), &mut ment_after); }
+                let allocated: std::collections::BTreeSet<String> = row["events"].as_array().map(|evs| evs.iter()
+                    .filter(|e| e["ev"] == "alloc").map(|e| format!("r{}", e["reg"])).collect()).unwrap_or_default();
+                let dead_scratch: Vec<String> = if simplified.is_ok() {
+                    ment_src.iter().filter(|r| !ment_after.contains(*r) && allocated.contains(*r)).cloned().collect()
+                } else { vec![] };
+                row["dead_scratch"] = json!(dead_scratch);
+                row["rejected"] = json!(first_line(&diag)); row["diag"] = json!(diag.chars().take(600).collect::<String>());
+            },
+            Out::Ok((Ok(src), simplified, Ok(instrs)), diag) => {
                 // registers the source mentions only in code that const_simplify removed, and that
                 // assign_registers then handed out (alloc events)
                 let mut ment_src = std::collections::BTreeSet::new();
